@@ -80,11 +80,11 @@ func runC20Emit(ci interface{}, st *CaseStats) error {
 }
 
 var specC20Emit = &Spec{
-	ID:   "C20",
-	Rule: "emission mode: case = 1..12 metric names never emitted in this process before x 2..16 goroutines that emit each of them (counter / gauge / histogram, 0..3 labels) at the same instant through the process-wide real Prometheus client. Oracle: no emission panics (recovered and recorded by the harness's recorder) or returns an error. Non-trivial = at least 4 goroutines; distinct = SHA-1 of the case",
-	Gen:  genC20Emit,
-	New:  func() interface{} { return &c20EmitCase{} },
-	Run:  runC20Emit,
+	ID:      "C20",
+	Rule:    "emission mode: case = 1..12 metric names never emitted in this process before x 2..16 goroutines that emit each of them (counter / gauge / histogram, 0..3 labels) at the same instant through the process-wide real Prometheus client. Oracle: no emission panics (recovered and recorded by the harness's recorder) or returns an error. Non-trivial = at least 4 goroutines; distinct = SHA-1 of the case",
+	Gen:     genC20Emit,
+	New:     func() interface{} { return &c20EmitCase{} },
+	Run:     runC20Emit,
 	Engines: []string{"real Prometheus client"},
 }
 
